@@ -245,3 +245,52 @@ func Hex(b []byte) string {
 	}
 	return hex.EncodeToString(b)
 }
+
+// MergeChild folds the summary (and signature file) a child worker wrote
+// into this context; used by properties that need one process per history.
+func (c *Ctx) MergeChild(dir string) (found bool) {
+	files, _ := filepath.Glob(filepath.Join(dir, "summary-*.json"))
+	for _, f := range files {
+		b, err := os.ReadFile(f)
+		if err != nil {
+			continue
+		}
+		var s report.Summary
+		if json.Unmarshal(b, &s) != nil || !s.Done {
+			continue
+		}
+		found = true
+		c.sum.Evals += s.Evals
+		for k, v := range s.Counters {
+			c.sum.Counters[k] += v
+		}
+		for k, v := range s.ViolCounts {
+			c.sum.ViolCounts[k] += v
+		}
+		for _, v := range s.Violations {
+			if len(c.sum.Violations) < c.maxViol {
+				c.sum.Violations = append(c.sum.Violations, v)
+			}
+		}
+		for k, l := range s.Sets {
+			for _, m := range l {
+				c.SetAdd(k, m)
+			}
+		}
+		for _, sm := range s.Samples {
+			if len(c.sum.Samples) < 6 {
+				c.sum.Samples = append(c.sum.Samples, sm)
+			}
+		}
+		c.sum.Inconclusive = append(c.sum.Inconclusive, s.Inconclusive...)
+	}
+	sfiles, _ := filepath.Glob(filepath.Join(dir, "sigs-*.bin"))
+	for _, f := range sfiles {
+		if sb, err := os.ReadFile(f); err == nil {
+			for i := 0; i+8 <= len(sb); i += 8 {
+				c.sigs[binary.LittleEndian.Uint64(sb[i:])] = struct{}{}
+			}
+		}
+	}
+	return found
+}
